@@ -133,6 +133,15 @@ class GradHistory:
             x.grad = seed("s0", (2,), other)
             x.zero_()
             (x * 2.0).backward(seed("s1", (2,), g1))
+        elif name == "foreign_buffer_then_accumulate":
+            # the same assignment followed directly by a backward that accumulates into it (the assignment may also be
+            # refused, as PyTorch does for a gradient of another type)
+            try:
+                x.grad = seed("s0", (2,), other)
+            except (RuntimeError, TypeError, ValueError) as e:
+                out.rejected = "%s: %s" % (type(e).__name__, e)
+                return out
+            (x * 2.0).backward(seed("s1", (2,), g1))
         elif name == "recast_then_reset":
             # the tensor's data is re-bound in the other floating type after a first backward (what the initialisers do with
             # parameters); after a reset the gradient follows the tensor's current type
@@ -160,7 +169,8 @@ class GradHistory:
 
 
 GRAD_HISTORIES = ["leaf_root_twice", "accumulate", "leaf_root_after_graph", "mixed_operands", "retained_root_twice",
-                  "default_seed", "reset_between", "interior_then_root", "foreign_buffer_then_reset", "recast_then_reset"]
+                  "default_seed", "reset_between", "interior_then_root", "foreign_buffer_then_reset", "recast_then_reset",
+                  "foreign_buffer_then_accumulate"]
 
 
 def build(spec):
